@@ -654,7 +654,8 @@ void resolveBody(vf::Ctx & c)
 {
   typedef long double LD;
   const int p = static_cast<int>(c.s.i("estimate_size", 1, 6));
-  const int m = static_cast<int>(c.s.len("data_size", p + 1, 120));
+  // data size: up to 120, or exactly a multiple of 64 (block-wise accumulation boundaries)
+  const int m = (c.s.pick("data_size_class", {4, 1}) == 0) ? static_cast<int>(c.s.len("data_size", p + 1, 120)) : 64 * static_cast<int>(c.s.i("data_size_64s", 1, 6));
   const double condJ = c.s.rlog("cond", 1.0, sizeof(S) == 4 ? 10.0 : 100.0);
   const size_t wScale = c.s.pick("weight_scale", {3, 1, 1});            // ordinary / 1e-3 / tiny (1e-4 float, 1e-8 double)
   const size_t pre = c.s.pick("preconditioner", {2, 1, 2});             // none / identity matrix + offset / diagonal + offset
@@ -673,6 +674,11 @@ void resolveBody(vf::Ctx & c)
   }
   const bool second = c.s.flag("second_problem_through_held_references", 1, 3);
   const uint64_t seed = c.s.seed("content");
+  // value semantics: before one of the solves the solver is replaced by a copy of itself (never combined with the
+  // held references of the second problem, which would dangle)
+  const int copyBefore = (!second && c.s.flag("continue_on_a_copy_of_the_solver", 1, 3)) ? static_cast<int>(c.s.i("copy_before_solve", 0, nSolves - 1)) : -1;
+  c.labelIf(copyBefore >= 0, "solver-continued-on-a-copy");
+  c.labelIf(m % 64 == 0, "data-size-multiple-of-64");
   bool weightedAfterUnweighted = false;
   for (int k = 1; k < nSolves; ++k) {if (path[k] == 2 && path[k - 1] != 2) {weightedAfterUnweighted = true;}}
   c.labelIf(weightedAfterUnweighted, "weighted-solve-after-unweighted-on-the-same-data");
@@ -714,11 +720,11 @@ void resolveBody(vf::Ctx & c)
     }
   }
 
-  Solver<S> ls(static_cast<size_t>(p));
-  ls.setDataSize(static_cast<size_t>(m));
-  auto & Jl = ls.getJ();
-  auto & Yl = ls.getY();
-  auto & Wl = ls.getW();
+  std::unique_ptr<Solver<S>> holder(new Solver<S>(static_cast<size_t>(p)));
+  holder->setDataSize(static_cast<size_t>(m));
+  auto & Jl = holder->getJ();
+  auto & Yl = holder->getY();
+  auto & Wl = holder->getW();
   int rows = m;
   auto load = [&]() {
       for (int r = 0; r < rows; ++r) {
@@ -732,9 +738,10 @@ void resolveBody(vf::Ctx & c)
     typename Solver<S>::Matrix Am = Solver<S>::Matrix::Zero(p, p);
     typename Solver<S>::Vector bv(p);
     for (int k = 0; k < p; ++k) {Am(k, k) = static_cast<S>(A[k]); bv(k) = static_cast<S>(b[k]);}
-    ls.setPreconditionner(Am, bv);
+    holder->setPreconditionner(Am, bv);
   }
   auto solveAndCheck = [&](int pathKind, const std::string & who) {
+      Solver<S> & ls = *holder;
       if (pathKind == 2) {
         // the weighted path multiplies the stored rows by the weights: afterwards that IS the content
         for (int r = 0; r < rows; ++r) {
@@ -767,13 +774,19 @@ void resolveBody(vf::Ctx & c)
         who.c_str(), ng, tol, p, rows, condJ, nJ * nY);
     };
   static const char * pn[] = {"SVD", "Cholesky", "weighted"};
-  for (int k = 0; k < nSolves; ++k) {solveAndCheck(path[k], vf::fmt("solve #%d (%s) without reloading", k, pn[path[k]]));}
+  for (int k = 0; k < nSolves; ++k) {
+    if (k == copyBefore) {
+      std::unique_ptr<Solver<S>> copy(new Solver<S>(*holder));
+      holder = std::move(copy);
+    }
+    solveAndCheck(path[k], vf::fmt("solve #%d (%s) without reloading%s", k, pn[path[k]], copyBefore >= 0 && k >= copyBefore ? " (on a copy of the solver)" : ""));
+  }
   if (second) {
     // a second, not larger problem written through the references obtained before the first solve
     rows = std::max(p + 1, m - static_cast<int>(rng.below(static_cast<uint64_t>(m - p))));
     makeProblem(rows, J, Y);
     for (int r = 0; r < rows; ++r) {W[r] = static_cast<S>(ws * rng.uniform(0.5, 2.0));}
-    bool realloc = ls.setDataSize(static_cast<size_t>(rows));
+    bool realloc = holder->setDataSize(static_cast<size_t>(rows));
     c.harnessCheck(!realloc, "setDataSize(smaller) reallocated");
     load();
     for (int k = 0; k < nSolves; ++k) {solveAndCheck(path[k], vf::fmt("second problem, solve #%d (%s)", k, pn[path[k]]));}   // fresh content: same path sequence is in-domain again
